@@ -9,7 +9,7 @@ INV = ["Coherent", "RegenerateOK"]
 
 def run(tier, argv):
     chk = Check("C04", tier)
-    plans = [("a", ["f2", "fs", "fd"], "all", "all"), ("b", ["fn3", "fvf", "fc", "fa"], "few", "all")]
+    plans = [("a", ["f2", "fs", "fd"], "all", "all"), ("b", ["fn3", "fvf", "fc", "fa", "fb"], "few", "all")]
     if tier != "quick":
         plans = [("a", ["f2", "fs", "fd", "fc", "fa"], "all", "all"), ("b", ["fn3", "fvf", "fv", "fr", "fsc", "fvs"], "few", "all")]
     for tag, progs, sims, ua in plans:
